@@ -124,6 +124,38 @@ def _alarm(signum, frame):
     raise HarnessTimeout()
 
 
+class CaseTimeout(BaseException):
+    """One case exceeded its own wall-clock limit (see case_limit)."""
+
+
+class case_limit(object):
+    """Context manager: raise CaseTimeout inside the block if it runs longer than `seconds` of wall clock.
+    Used only where termination itself is the property and no step counter (horizon) can be placed: the limit is
+    orders of magnitude above the normal cost of a case.  The job-level alarm is suspended and re-armed."""
+
+    def __init__(self, seconds):
+        self.seconds = seconds
+
+    def __enter__(self):
+        self.t0 = time.time()
+        self.old_handler = signal.getsignal(signal.SIGALRM)
+        self.remaining = signal.getitimer(signal.ITIMER_REAL)[0]
+
+        def fire(signum, frame):
+            raise CaseTimeout()
+        signal.signal(signal.SIGALRM, fire)
+        signal.setitimer(signal.ITIMER_REAL, self.seconds)
+        return self
+
+    def __exit__(self, et, ev, tb):
+        signal.setitimer(signal.ITIMER_REAL, 0)
+        signal.signal(signal.SIGALRM, self.old_handler)
+        if self.remaining:
+            left = max(1.0, self.remaining - (time.time() - self.t0))
+            signal.setitimer(signal.ITIMER_REAL, left)
+        return False
+
+
 def _run_job(spec):
     modname, label, funcname, args, limit = spec
     t0 = time.time()
